@@ -59,11 +59,14 @@ enum Variant
   V_CV_ADDR_VOL,
   V_CV_BUFADDR,
   V_DENY,
+  V_STR_CUPTR,
+  V_STR_CUPTR_VOL,
   V_COUNT
 };
 static const char* kVar[] = { "string_uptr",   "string_std",  "string_uptr_from_cell", "string_std_from_cell", "range_char",   "range_short",
                               "range_int",     "range_ll",    "range_double",          "range_int_from_cell",  "cv_ptr_prim",  "cv_ptr_prim_from_cell",
-                              "cv_fund_in_cell", "cv_struct", "cv_array_field",        "cv_address_from_cell", "cv_buffer_address", "deny_access_copy" };
+                              "cv_fund_in_cell", "cv_struct", "cv_array_field",        "cv_address_from_cell", "cv_buffer_address", "deny_access_copy",
+                              "string_const_uptr", "string_const_uptr_from_cell" };
 static_assert(sizeof(kVar) / sizeof(kVar[0]) == V_COUNT);
 
 enum Mut
@@ -75,9 +78,10 @@ enum Mut
   M_RETARGET,
   M_NULL_CELL,
   M_SCRIBBLE,
+  M_ALLOC_FAIL, // not a guest mutation: the k-th host allocation made inside the call fails (k counts allocations, not accesses)
   M_COUNT
 };
-static const char* kMut[] = { "remove_terminator", "insert_terminator", "lengthen", "flip_element", "retarget_cell", "null_cell", "scribble_region" };
+static const char* kMut[] = { "remove_terminator", "insert_terminator", "lengthen", "flip_element", "retarget_cell", "null_cell", "scribble_region", "host_allocation_fails" };
 
 constexpr uint32_t OFF_CELL = 32; // pointer cell
 constexpr uint32_t OFF_B = 1024; // second buffer (retarget target)
@@ -106,15 +110,25 @@ static size_t elem_size(int v)
 }
 static bool is_string(int v)
 {
-  return v <= V_STR_STD_VOL;
+  return v <= V_STR_STD_VOL || v == V_STR_CUPTR || v == V_STR_CUPTR_VOL;
 }
 static bool uses_cell(int v)
 {
-  return v == V_STR_UPTR_VOL || v == V_STR_STD_VOL || v == V_RANGE_INT_VOL || v == V_CV_PRIM_VOL || v == V_CV_ADDR_VOL;
+  return v == V_STR_UPTR_VOL || v == V_STR_STD_VOL || v == V_STR_CUPTR_VOL || v == V_RANGE_INT_VOL || v == V_CV_PRIM_VOL || v == V_CV_ADDR_VOL;
 }
 static bool single_object(int v)
 {
   return v == V_CV_PRIM || v == V_CV_PRIM_VOL || v == V_CV_FUND_VOL || v == V_CV_STRUCT || v == V_CV_ARRAY || v == V_CV_ADDR_VOL;
+}
+
+// length of a string handed over in a heap block of its own: never reads beyond the block
+static size_t bounded_strlen(const char* p)
+{
+  size_t cap = malloc_usable_size(const_cast<char*>(p));
+  size_t n = 0;
+  while (n < cap && p[n])
+    n++;
+  return n;
 }
 
 struct Fault
@@ -185,6 +199,8 @@ struct ToctouWorld : World
       case M_SCRIBBLE:
         memset(g + 8, 'Z', S - 8);
         break;
+      default:
+        return;
     }
     snapshot();
   }
@@ -194,8 +210,9 @@ struct ToctouWorld : World
     auto* w = (ToctouWorld*)ud;
     if (w->verifier_entered)
       return;
+    AllocPause nofail; // snapshots are the harness's allocations
     for (auto& f : w->faults)
-      if (!f.fired && f.k == k) {
+      if (!f.fired && f.mut != M_ALLOC_FAIL && f.k == k) {
         f.fired = true;
         w->faults_fired_in_window++;
         w->mutate(f.mut, f.arg);
@@ -222,6 +239,7 @@ struct ToctouWorld : World
   // called at verifier entry with the object's storage
   void verifier_saw(const void* data, size_t n, bool null_obj = false)
   {
+    g_host_alloc_fail_countdown = 0; // the fault targets the allocations RLBox makes before it calls the verifier
     verifier_entered = true;
     traps_at_verifier = mmu::g.count;
     got.called = true;
@@ -342,6 +360,7 @@ struct ToctouWorld : World
     };
 
     std::unique_ptr<char[]> kept_str;
+    std::unique_ptr<const char[]> kept_cstr;
     std::string kept_std;
     std::vector<uint8_t> kept; // bytes the application keeps using afterwards
     const void* kept_ptr = nullptr;
@@ -367,12 +386,17 @@ struct ToctouWorld : World
       ::operator delete(probe1);
       ::operator delete(probe2);
     }
+    unsigned long alloc_failed_before = g_host_alloc_failed;
+    if (!dry && variant != V_DENY)
+      for (auto& f : faults)
+        if (f.mut == M_ALLOC_FAIL && f.k >= 1 && f.k <= 8)
+          g_host_alloc_fail_countdown = (int)f.k;
     mmu::arm(impl->mem.base, S, dry ? nullptr : &ToctouWorld::hook, this);
     Outcome o = attempt([&] {
       switch (variant) {
         case V_STR_UPTR:
           kept_str = pA((char*)0).copy_and_verify_string([&](std::unique_ptr<char[]> s) {
-            verifier_saw(s.get(), s ? strlen(s.get()) + 1 : 0, !s);
+            verifier_saw(s.get(), s ? bounded_strlen(s.get()) + 1 : 0, !s);
             return s;
           });
           break;
@@ -384,7 +408,7 @@ struct ToctouWorld : World
           break;
         case V_STR_UPTR_VOL:
           kept_str = (*cell((char*)0)).copy_and_verify_string([&](std::unique_ptr<char[]> s) {
-            verifier_saw(s.get(), s ? strlen(s.get()) + 1 : 0, !s);
+            verifier_saw(s.get(), s ? bounded_strlen(s.get()) + 1 : 0, !s);
             return s;
           });
           break;
@@ -486,6 +510,18 @@ struct ToctouWorld : World
             },
             lenA);
           break;
+        case V_STR_CUPTR:
+          kept_cstr = pA((char*)0).copy_and_verify_string([&](std::unique_ptr<const char[]> s) {
+            verifier_saw(s.get(), s ? bounded_strlen(s.get()) + 1 : 0, !s);
+            return s;
+          });
+          break;
+        case V_STR_CUPTR_VOL:
+          kept_cstr = (*cell((char*)0)).copy_and_verify_string([&](std::unique_ptr<const char[]> s) {
+            verifier_saw(s.get(), s ? bounded_strlen(s.get()) + 1 : 0, !s);
+            return s;
+          });
+          break;
         case V_DENY: {
           g_fault.grant_refuse = 1;
           if ((sc.seed >> 9) % 5 == 0)
@@ -498,6 +534,8 @@ struct ToctouWorld : World
     uint64_t K = mmu::g.count;
     uint64_t traps_after_verifier = verifier_entered ? K - traps_at_verifier : 0;
     mmu::disarm();
+    g_host_alloc_fail_countdown = 0;
+    bool alloc_fault = g_host_alloc_failed != alloc_failed_before;
     g_host_malloc_fail = 0;
     g_fault.clear();
     if (dry) {
@@ -514,6 +552,10 @@ struct ToctouWorld : World
     for (auto& f : faults)
       if (f.fired)
         c.fired((std::string("F2_") + kMut[f.mut]).c_str());
+    if (alloc_fault) {
+      c.fired("F5_host_allocation_fails_inside_call");
+      c.ev("host allocation failed inside the call");
+    }
 
     // ---------------- oracle ----------------
     const char* vn = kVar[variant];
@@ -522,7 +564,26 @@ struct ToctouWorld : World
       // the backend stub refused (registry found no sandbox): only legal if the run is otherwise broken
       c.violate("C09", cls("unexpected_trap"), "%s", g_last_abort_msg.c_str());
     }
-    bool fault_free = faults_fired_in_window == 0;
+    bool fault_free = faults_fired_in_window == 0 && !alloc_fault;
+    if (alloc_fault && !c.stop) {
+      // the copy could not be made: the call fails, no verifier runs and nothing is handed over
+      if (got.called)
+        c.violate("C09", cls("verifier_ran_although_copy_could_not_be_allocated"), "verifier called with %s after the allocation of the copy failed", got.null_obj ? "null" : "an object");
+      else if (o == OK)
+        c.violate("C09", cls("call_succeeded_although_copy_could_not_be_allocated"), "returned normally");
+    }
+    if (got.called && got.null_obj && !c.stop) {
+      // null is handed over only for a null source pointer
+      bool legit = false;
+      if (uses_cell(variant))
+        for (auto& v : versions) {
+          uint32_t rep;
+          memcpy(&rep, &v[OFF_CELL], 4);
+          legit = legit || rep == 0;
+        }
+      if (!legit)
+        c.violate("C09", cls("verifier_received_null_for_non_null_source"), "the source pointer was never null");
+    }
     if (fault_free && o != OK && !(variant == V_DENY && copied == false && deny_buf == nullptr)) {
       c.violate("C09", cls("fault_free_call_aborted"), "%s", g_last_abort_msg.c_str());
     }
@@ -542,10 +603,16 @@ struct ToctouWorld : World
     }
     // what the application keeps
     if (o == OK && !c.stop) {
-      if (kept_str) {
-        kept_ptr = kept_str.get();
-        kept_n = strlen(kept_str.get()) + 1;
-        got.usable = malloc_usable_size(kept_str.get());
+      if (kept_str || kept_cstr) {
+        const char* ks = kept_str ? kept_str.get() : kept_cstr.get();
+        size_t n = bounded_strlen(ks);
+        got.usable = malloc_usable_size(const_cast<char*>(ks));
+        if (n >= got.usable) {
+          c.violate("C09", cls("string_not_terminated_inside_its_buffer"), "no NUL within the %zu bytes of the buffer handed over", got.usable);
+        } else {
+          kept_ptr = ks;
+          kept_n = n + 1;
+        }
       } else if (variant == V_STR_STD || variant == V_STR_STD_VOL) {
         kept_ptr = kept_std.data();
         kept_n = kept_std.size() + 1;
@@ -775,8 +842,15 @@ struct ToctouWorld : World
       Op f;
       f.kind = K_FAULT;
       f.a[0] = (int64_t)(1 + r.below(K ? K : 1));
-      f.a[1] = (int64_t)r.below(M_COUNT);
+      f.a[1] = (int64_t)r.below(M_ALLOC_FAIL);
       f.a[2] = (int64_t)r.below(64);
+      p.ops.push_back(f);
+    }
+    if (r.chance(1, 8)) {
+      Op f;
+      f.kind = K_FAULT;
+      f.a[0] = (int64_t)r.range(1, 3);
+      f.a[1] = M_ALLOC_FAIL;
       p.ops.push_back(f);
     }
     return p;
@@ -806,8 +880,10 @@ struct ToctouWorld : World
           uint64_t K = dryK(s);
           grid.push_back(EnumItem{ s, 0, 0 }); // fault-free
           for (uint64_t k = 1; k <= K; k++)
-            for (int m = 0; m < M_COUNT; m++)
+            for (int m = 0; m < M_ALLOC_FAIL; m++)
               grid.push_back(EnumItem{ s, k, m });
+          for (uint64_t n = 1; n <= 3 && v != V_DENY; n++)
+            grid.push_back(EnumItem{ s, n, M_ALLOC_FAIL }); // the n-th host allocation inside the call fails
         }
   }
   uint64_t enum_count(bool) override
